@@ -17,14 +17,15 @@ SET_CLEAR = '{"set", "clear"}'
 
 
 def _configs(thorough):
+    b01 = None if thorough else ['m0', 'm1']     # quick: the program assigns through the root and one other map
     cfgs = {
         # all three mutators, layered maps, pre-populated maps built off the tree
         'c11_tree': (rc.consts(maps=3, handles=3 if thorough else 2, depth=2, ops='Ops_Tree'), 3 if thorough else 2),
         # composite keys of depth 3 over four maps: leading parts that exist (explicit or implicit) followed by parts
         # that have to be created, one or two implicit maps per call
-        'c11_deep': (rc.consts(maps=4, handles=1, depth=3, ops=SET_CLEAR), 3 if thorough else 2),
+        'c11_deep': (rc.consts(maps=4, handles=1, depth=3, ops=SET_CLEAR, builders=b01), 3 if thorough else 2),
         # resources moved from a staging map into the main tree, either map cleared afterwards
-        'c11_staging': (rc.consts(maps=3, handles=2, depth=2, ops=SET_CLEAR, staging=True), 3 if thorough else 2),
+        'c11_staging': (rc.consts(maps=3, handles=2, depth=2, ops=SET_CLEAR, staging=True, builders=b01), 3 if thorough else 2),
     }
     if thorough:
         cfgs['c11_deep_layers'] = (rc.consts(maps=3, handles=2, depth=3, ops='Ops_Tree'), 3)
